@@ -138,6 +138,39 @@ fn main() {
             let cli = runner::basic::Cli::default();
             for s in &f.scenarios { println!("{:?} -> {:?}", s.tags, runner::basic::RetryOptions::parse_from_tags(&f, None, s, &cli)); }
         }
+        "e7" => {
+            use cucumber::feature::Ext as _;
+            let src = "Feature: O\n  @o\n  Scenario Outline: n <a><b> <a b> <zz\n    Given v <a>-<b> $1 <c>\n      \"\"\"\n      doc <a>\n      \"\"\"\n    When t\n      | <a> | x<b>y |\n\n    @t1\n    Examples:\n      | a | b | c |\n      | 1 | <a> | $0 |\n      | .* | 2 | <c> |\n\n    Examples: header only\n      | a | b | c |\n\n    @t2\n    Examples:\n      | a | b | c |\n      | p | q | r |\n  Scenario: plain <a>\n    Given w <a>\n";
+            let f = feat(src);
+            match f.clone().expand_examples() {
+                Ok(f) => for sc in &f.scenarios { println!("SC name={:?} tags={:?} pos={}:{} steps={:?}", sc.name, sc.tags, sc.position.line, sc.position.col, sc.steps.iter().map(|s| (s.value.clone(), s.docstring.clone(), s.table.as_ref().map(|t| t.rows.clone()))).collect::<Vec<_>>()); },
+                Err(e) => println!("ERR {e}"),
+            }
+            let bad = feat("Feature: O\n  Scenario Outline: n <x> <y>\n    Given v <a> <z>\n    Examples:\n      | a |\n      | 1 |\n      | 2 |\n");
+            match bad.expand_examples() { Ok(_) => println!("ok?!"), Err(e) => println!("ERR {e} name={}", e.name) }
+        }
+        "e8" => {
+            let src = "Feature: J \"q\" <&>\n  Background:\n    Given pass\n  @retry(1)\n  Scenario: s é\n    Given failfirst\n    Given pass\n  Rule: r\n    Scenario: s é\n      Given nomatch\n";
+            let which2 = std::env::args().nth(2).unwrap_or_default();
+            let mut f = feat(src); if which2 == "nopath" { f.path = None; }
+            let mk = || runner::Basic::<W>::default().max_concurrent_scenarios(Some(1))
+                .given(Regex::new("^pass$").unwrap(), pass_step).given(Regex::new("^failfirst$").unwrap(), fail_first)
+                .after(|_, _, sc, _, _| { let n = sc.name.clone(); async move { if n.is_empty() { panic!("x") } }.boxed_local() });
+            #[derive(Clone, Default)] struct Buf(Rc<RefCell<Vec<u8>>>);
+            impl std::io::Write for Buf { fn write(&mut self, b: &[u8]) -> std::io::Result<usize> { self.0.borrow_mut().extend_from_slice(b); Ok(b.len()) } fn flush(&mut self) -> std::io::Result<()> { Ok(()) } }
+            let b1 = Buf::default();
+            let mut wr = writer::Json::new::<W>(b1.clone());
+            let evs = mk().run(futures::stream::iter(vec![Ok(f.clone())]), runner::basic::Cli::default());
+            futures::executor::block_on(async { futures::pin_mut!(evs); while let Some(e) = evs.next().await { Writer::<W>::handle_event(&mut wr, e, &cli::Empty).await; } });
+            println!("JSON: {}", String::from_utf8_lossy(&b1.0.borrow()));
+            ATTEMPT.store(0, Ordering::SeqCst);
+            let b2 = Buf::default();
+            let mut wr = writer::JUnit::<W, _>::new(b2.clone(), 0);
+            let evs = mk().run(futures::stream::iter(vec![Ok(f)]), runner::basic::Cli::default());
+            let c = cucumber::writer::junit::Cli { verbose: None };
+            futures::executor::block_on(async { futures::pin_mut!(evs); while let Some(e) = evs.next().await { wr.handle_event(e, &c).await; } });
+            println!("JUNIT: {}", String::from_utf8_lossy(&b2.0.borrow()));
+        }
         _ => {}
     }
     let _ = Arc::new(0);
